@@ -26,7 +26,13 @@ type c25Opt struct {
 	Optional   bool   `json:"optional_argument,omitempty"`
 	Required   bool   `json:"required,omitempty"`
 	Choices    []string
-	modelled   bool
+	// Custom: the option's Go type brings its own value handling (flags.Unmarshaler
+	// and/or flags.ValueValidator). Such an option is never used by the
+	// well-formed generator (modelled=false: the harness does not know which
+	// values the type accepts), but it IS part of the hostile families: what the
+	// parser does with a token in its value position is exactly what is monitored.
+	Custom   string `json:"custom_value_type,omitempty"`
+	modelled bool
 }
 
 type c25Pos struct {
@@ -97,11 +103,28 @@ func c25Options(g *flags.Group, out *[]c25Opt) {
 		if o.ShortName != 0 {
 			op.Short = string(o.ShortName)
 		}
-		custom := ft.Implements(c25UnmarshalerType) || reflect.PtrTo(ft).Implements(c25UnmarshalerType) ||
-			ft.Implements(c25ValidatorType) || reflect.PtrTo(ft).Implements(c25ValidatorType)
+		// like go-flags, look for the interfaces on the field type and on what it
+		// points to / is a slice of
+		unm, val := false, false
+		for t := ft; ; t = t.Elem() {
+			unm = unm || t.Implements(c25UnmarshalerType) || reflect.PtrTo(t).Implements(c25UnmarshalerType)
+			val = val || t.Implements(c25ValidatorType) || reflect.PtrTo(t).Implements(c25ValidatorType)
+			if t.Kind() != reflect.Slice && t.Kind() != reflect.Ptr {
+				break
+			}
+		}
 		switch {
-		case custom:
+		case unm:
+			op.Custom = "unmarshaler"
+			if val {
+				op.Custom += "+validator"
+			}
 			op.TakesValue = true
+			op.modelled = false
+		case val:
+			// a validator alone does not change whether the option takes a value
+			op.Custom = "validator"
+			op.TakesValue = !(kind == reflect.Bool || (kind == reflect.Func && base.NumIn() == 0))
 			op.modelled = false
 		case kind == reflect.Bool:
 			op.TakesValue = false
